@@ -17,6 +17,7 @@ import Babylon.BQ.Skel
 import Babylon.BQ.Examples
 import Babylon.BQ.TryFailEx
 import Babylon.BQ.PubView
+import Babylon.BQ.WakeView
 
 namespace Babylon.Properties.C01
 open Babylon.BQ Babylon.Core Babylon.Gen.BQ
@@ -237,6 +238,44 @@ pop i → push i+capacity on the same slot) is contained in the view with which 
 theorem bq_publication_hb (pay : Nat → Nat) (s : Pub.St) (h : Pub.Reach Pub.codeOrds pay s) (t : Nat) (hpc : s.pc t = .crit)
     (ht : 0 < t) : s.acc (t - 1) ≤ (s.m.tv t).cur :=
   Pub.pub_hb Pub.codeOrds pay Pub.codeOrds_ok s h t hpc ht
+
+/-! ### batch-path publication under weak memory (Babylon/BQ/WakeView.lean)
+deal_n_continuously / try_deal_n_continuously publish with relaxed version accesses bracketed by fences; the fence orders are the
+generated constants `ordBatchRelFence` / `ordBatchAcqFence` (`ordTryBatch…` for the try variant), `.rlx` when the fence is missing. -/
+open Babylon.Core.MemView in
+/-- **bq_publication_batch.**  Releaser `p`: callback writes the element cell `lc` (plain), `atomic_thread_fence(ordBatchRelFence)`,
+`set_version(nv, ordBatchStore)` on the version cell `lv`.  After arbitrary steps of anybody the next dealer `c` loads that version
+message with `ordBatchLoad`, after arbitrary steps executes `atomic_thread_fence(ordBatchAcqFence)`, after arbitrary steps reads
+the cell at any admissible timestamp.  In EVERY view-model execution: the version read is `nv`, the cell read is not older than the
+releaser's write (no stale element), and it is exactly the released value when the cell was written once in between. -/
+theorem bq_publication_batch {L : Type} [DecidableEq L] (m : Mem L) (p c : Nat) (lc lv : L) (hne : lc ≠ lv) (item nv : Nat)
+    (o : Babylon.Core.Ord) {m3 m4 m5 m7 m8 : Mem L} {s x ts : Nat}
+    (hext : (((m.write p lc .rlx item).fence p ordBatchRelFence).write p lv ordBatchStore nv).Ext m3)
+    (hst : m3.read c lv ordBatchLoad (m.len lv) = some (m4, s)) (hext2 : m4.Ext m5)
+    (hext3 : (m5.fence c ordBatchAcqFence).Ext m7) (hrd : m7.read c lc o ts = some (m8, x)) :
+    s = nv ∧ m.len lc ≤ ts ∧ (m7.len lc = m.len lc + 1 → x = item) :=
+  WakeView.publication_batch m p c lc lv hne item nv o hext hst hext2 hext3 hrd
+
+open Babylon.Core.MemView in
+/-- **bq_publication_batch (happens-before).**  Everything the releaser had seen or done before its release fence — the element
+reads of a pop callback included — is in the next dealer's view after its acquire fence: the next write of the slot is ordered
+after them (no overwrite race). -/
+theorem bq_publication_batch_hb {L : Type} [DecidableEq L] (m : Mem L) (p c : Nat) (lv : L) (nv : Nat) {m3 m4 m5 : Mem L} {s : Nat}
+    (hext : ((m.fence p ordBatchRelFence).write p lv ordBatchStore nv).Ext m3)
+    (hst : m3.read c lv ordBatchLoad (m.len lv) = some (m4, s)) (hext2 : m4.Ext m5) :
+    s = nv ∧ (m.tv p).cur ≤ ((m5.fence c ordBatchAcqFence).tv c).cur :=
+  WakeView.publication_batch_hb m p c lv nv hext hst hext2
+
+/-- the fence orders extracted from both batch functions have the needed strength (a dropped fence is extracted as `.rlx` and fails here) -/
+theorem gen_batch_fences :
+    ordBatchRelFence.releases = true ∧ ordTryBatchRelFence.releases = true ∧ ordBatchAcqFence.acquires = true ∧
+    ordTryBatchAcqFence.acquires = true ∧ WakeView.mpRun ordTryBatchRelFence ordTryBatchAcqFence 1 0 = none := by decide
+
+/-- negative control: without the release fence, or without the acquire fence, the next dealer can see the new version and still
+read the stale element -/
+theorem bq_publication_batch_needs_fences :
+    WakeView.mpRun .rlx ordBatchAcqFence 1 0 = some 100 ∧ WakeView.mpRun ordBatchRelFence .rlx 1 0 = some 100 :=
+  WakeView.publication_batch_needs_fences
 
 /-! ### non-vacuity: the hypotheses are satisfiable by concrete non-trivial states (capacity 2) -/
 /-- a reachable state in which thread 1 holds push ticket 0 (hypotheses of `bq_ticket_ge_start`, `bq_fifo`) -/
